@@ -660,7 +660,22 @@ class VM:
                 raise JSTypeError("Right-hand side of instanceof is not callable")
 
             # Check prototype chain
-            if not isinstance(obj, JSObject):
+            if isinstance(obj, JSFunction):
+                # A script function's chain is Function.prototype -> Object.prototype
+                fn_ctor = self.globals.get("Function")
+                fn_proto = (
+                    fn_ctor.get("prototype") if isinstance(fn_ctor, JSObject) else None
+                )
+                target = (
+                    getattr(constructor, "_prototype", None)
+                    if isinstance(constructor, JSFunction)
+                    else constructor.get("prototype")
+                )
+                self.stack.append(
+                    isinstance(target, JSObject)
+                    and (target is fn_proto or target is self._object_prototype())
+                )
+            elif not isinstance(obj, JSObject):
                 self.stack.append(False)
             else:
                 # Get constructor's prototype property
